@@ -17,7 +17,6 @@ from __future__ import annotations
 """Service-related policy factories."""
 
 # pylint:disable=g-import-not-at-top
-import functools
 import time
 
 from vizier import pythia
@@ -74,14 +73,15 @@ class DefaultPolicyFactory(pythia.PolicyFactory):
     elif algorithm == 'SHUFFLED_GRID_SEARCH':
       from vizier._src.algorithms.designers import grid
 
+      # `from_problem` takes the shuffle seed as `seed`, which the policy
+      # passes whenever it creates the designer; later requests restore the
+      # seed of the first one from the study metadata.
       shuffle_seed = int(time.time())
-      grid_factory = functools.partial(
-          grid.GridSearchDesigner.from_problem, shuffle_seed=shuffle_seed
-      )
       return dp.PartiallySerializableDesignerPolicy(
           problem_statement,
           policy_supporter,
-          grid_factory,
+          grid.GridSearchDesigner.from_problem,
+          seed=shuffle_seed,
       )
     elif algorithm == 'NSGA2':
       from vizier._src.algorithms.evolution import nsga2
